@@ -273,6 +273,9 @@ class ModelClient:
         estimand_baselines = config_handler.get_estimand_baselines(self.office, estimands)
 
         LOG.info("Getting preprocessed data: %s", self.election_id)
+        if preprocessed_data is not None:
+            # the handler adds columns in place; the frame passed in belongs to the caller
+            preprocessed_data = preprocessed_data.copy()
         preprocessed_data_handler = PreprocessedDataHandler(
             self.election_id,
             self.office,
